@@ -229,6 +229,19 @@ def run(chk, ctx):
         chk.ob('C10.L', cons, okk, why, site='pamqp/encode.py::timestamp')
     for cons, okk, why in tsrules.timestamp_decode_rule(ctx):
         chk.ob('C10.P', cons, okk, why, site='pamqp/decode.py::timestamp')
+    # nothing the caller put into a content header is dropped before it is
+    # encoded: the constructor keeps the properties object it is given
+    from .. import ctors
+    r_ = ctors.passthrough(
+        ctx, prog.cls('header.ContentHeader'),
+        {'weight': 'int', 'body_size': 'int',
+         'properties': 'inst:commands.Basic.Properties'})
+    if r_ is None:
+        chk.undecide('C10.L', 'header.ContentHeader()', 'no constructor')
+    else:
+        for nm, okc, text in r_[0]:
+            chk.ob('C10.L', 'header.ContentHeader(%s)' % nm, okc,
+                   'stores %s' % text, site='pamqp/header.py')
     # key truncation must be announced
     truncation_check(chk, ctx)
     chk.assume('values of foreign types that subclass the guarded types '
